@@ -123,11 +123,21 @@ class C13(runner.Check):
     if marathon:
       # a long study: phases that only come late (eagle removes exhausted flies from a full pool and
       # refills it from its initial designer after ~650 trials), with one restart while the pool is full
-      name, space, depth = 'eagle', 'f2', 'direct'
-      batches = [5] * 140
+      if rng.random() < 0.6:
+        name, space, depth = 'eagle', 'f2', 'direct'
+        batches = [5] * 140
+        # one restart while the pool is full, and one late (after ~520 trials a fly's perturbation has decayed
+        # below its lower bound without the fly being removable)
+        sets = [[rng.randrange(10, 60)], sorted(rng.sample(range(10, 100), 2)) + [rng.randrange(106, 136)]]
+      else:
+        # NSGA-II with hundreds of updates: members that survive > 255 survival steps
+        name, space, depth = 'nsga2', 'f2', 'direct'
+        batches = [1] * 330
+        sets = [[rng.randrange(270, 320)]]
       n = len(batches)
-      sets = [[rng.randrange(10, 60)], sorted(rng.sample(range(10, 130), 3))]
       exhaustive = False
+    if name not in ('quasi', 'sgrid', 'eagle') and seed >= 2**32:
+      seed %= 2**31  # (numpy RandomState-based designers only take 32-bit seeds)
     return {'designer': name, 'space': space, 'seed': seed, 'depth': depth,
             'marathon': marathon,
             # a sample of direct-depth plans also restores the dump in ANOTHER interpreter (other hash seed):
